@@ -198,7 +198,9 @@ func (o *OutputPrinter) Run(execCtx ExecutionContext) error {
 	})
 	format.Close()
 	buf.WriteTo(liveWriter)
-	liveWriter.Flush()
+	if err := liveWriter.Flush(); err != nil {
+		return fmt.Errorf("couldn't write output: %w", err)
+	}
 
 	return nil
 }
